@@ -16,7 +16,7 @@ for m in ${@:-$here/mutants/benign/*.py}; do
   res=""
   for id in C01 C02 C03 C04 C05 C06 C07 C08 C09 C10 C11 C12 C13 C14 C15 C16 C17 C18 C19 C20; do
     o=$(VERIF_REPO="$wt" VERIF_DIR="$vd" "$here/bin/vcheck" run "$id" --tier quick 2>&1)
-    if echo "$o" | grep -q '^VIOLATION'; then res="$res $id:ALARM($(echo "$o" | grep '^  site=' | head -1 | cut -c1-160))"; fi
+    if echo "$o" | grep -q '^VIOLATION'; then res="$res $id:ALARM($(echo "$o" | grep '^  site=' | head -1 | cut -c1-160))"; mkdir -p /var/tmp/benign-alarms; cp -r "$vd/replay" "/var/tmp/benign-alarms/$name-$id" 2>/dev/null; echo "$o" > "/var/tmp/benign-alarms/$name-$id.out"; fi
     if echo "$o" | grep -q '^HARNESS-ERROR'; then res="$res $id:HARNESS-ERROR"; fi
   done
   [ -z "$res" ] && res=" all 20 checks silent"
